@@ -128,13 +128,14 @@ def gen_sources(rng, n_sources, bsz, max_msgs=12, containers=("plain",), tie_hea
         off = rng.choice(world.OFFSETS_HOUR if notation == 3 else world.OFFSETS_ALL)
         if notation == 0:
             off = 0  # zone-less stamps are written in UTC and the run passes --tz-offset +00:00
+        prefix_len = rng.choice((0, 3, 12, 40, 150, 400)) if notation >= 4 else 0
         p = world.TextLogParams(notation=notation, off_min=off, vary_offset=rng.random() < 0.3,
                                 n_msgs=n, src_letter=letter, bsz=bsz if (rng.random() < 0.5 and bsz <= 4096) else 0,
                                 cont_p=rng.choice((0.0, 0.3, 0.6)), special=special,
                                 final_newline=rng.random() < 0.8, instants=inst,
                                 frac_digits=rng.choice(frac_choices), crlf_p=crlf_p, blank_p=blank_p,
                                 preamble_lines=(rng.randint(1, 3) if rng.random() < preamble_p else 0),
-                                body_len=(0, rng.choice((10, 40, 120))))
+                                body_len=(0, rng.choice((10, 40, 120))), prefix_len=prefix_len)
         if first_line_max is not None:
             p.boundary_p = 0.15
             p.long_p = 0.0
@@ -146,6 +147,8 @@ def gen_sources(rng, n_sources, bsz, max_msgs=12, containers=("plain",), tie_hea
             # keep the first timestamped line inside block zero: otherwise s4 silently drops the whole
             # file (known finding F-C12a); the bulk of generated scenarios is steered away from it
             tries += 1
+            if tries >= 3 and p.notation >= 4:
+                p.notation, p.prefix_len = 1, 0      # a stamp deep inside the first line cannot fit this block zero
             p.bsz = 0
             p.body_len = (0, 20 if tries < 3 else 4)
             if tries >= 2:
@@ -164,8 +167,14 @@ def gen_sources(rng, n_sources, bsz, max_msgs=12, containers=("plain",), tie_hea
         stored, descr = world.random_container(rng, kind, content, mtime=mt_hdr, name=name)
         src = Source(name + world.SUFFIX[kind], "text", msgs, stored, content, kind, descr, mtime=mt_file)
         src.hdr_mtime = mt_hdr
+        src.notation = p.notation
         sources.append(src)
     return sources
+
+
+# notations for checks that do not care where in the line the stamp sits: mostly column 0, one source in eight with the
+# stamp inside the line (world.line_head, notations 4 and 5: found by s4's wide patterns only)
+NOTATIONS_WIDE = (1, 1, 1, 1, 1, 1, 2, 2, 3, 3, 0, 0, 1, 1, 4, 5)
 
 
 def draw_mtime(rng, msgs):
